@@ -87,4 +87,7 @@ CHECKS = {
     "C19": dict(engine=_A, technique="runtime monitoring: offline order/exactly-once checker over histories recorded on a real Agent + Messaging queue stepped deterministically by the harness",
                 text="Held on the executions observed: in every generated history of receptions, posts, start, pauses and resumes each received message was handled exactly once, per-sender handling order equals reception order, held messages kept their relative order and preceded every message received after they were first held, and posts made while paused reached the sink exactly once in posting order.",
                 note="The harness loop (next_msg/_handle_message/run/pause_computations) stands for the agent thread; thousands of held messages and paused posts per run (counters)."),
+    "C20": dict(engine=_A, technique="runtime monitoring: real Directory/Discovery computations over the harness-owned transport, generated valid histories interleaved with random FIFO deliveries, convergence oracle after drain (ground truth folded from the messages the directory handled)",
+                text="Held (except the listed known finding) on the executions observed: after draining, the directory equals the fold of the publish messages it handled, every instance's view of each agent/computation/replica it is still subscribed to equals the directory's, callback events fold to the directory's final state, one-shot callbacks fired at most once and no handler or API call raised.",
+                note="Valid API use per the reference model in pv/checks/c20.py (agents register first and leave last, one owner per computation, replicas only of known computations, no mix of callback / callback-less subscriptions on one item); single discovery priority => per-channel FIFO."),
 }
